@@ -255,6 +255,34 @@ def r_generator_streams_piped(r, prog):
 import codec as _codec
 
 
+def r_reply_flags_are_strict_bools(r, prog):
+    """The presence flag of an optional field of a reply type is read with the strict bool decoder (0 or 1, anything else is an error): a
+    decoder that reads a byte and tests a bit accepts a malformed reply, and files are then written from it."""
+    n = 0
+    for p_, f in sorted(prog.fns.items()):
+        m = re.match(r'^<(slicec_bin::definition_types::\w+) as slice_codec::decode_from::DecodeFrom>::decode_from$', p_)
+        if not m:
+            continue
+        adt = prog.adts.get(m.group(1))
+        if adt is None or len(adt['variants']) != 1:
+            continue
+        n += 1
+        n_opt = len([x for x in adt['variants'][0]['fields'] if re.match(r'^(core::option::)?Option<', x.get('ty') or '')])
+        decs = [c for c in f.calls() if c.name() == 'decode' and not f.blocks[c.bb].get('cleanup')]
+        n_bool = len([c for c in decs if c.targs and c.targs[-1] == 'bool'])
+        bits = [rv['op'] for bb, j, lhs, rv, st in f.assigns() if rv['k'] == 'bin' and rv['op'] in ('BitAnd', 'Shr', 'Shl', 'BitOr') and not f.blocks[bb].get('cleanup')]
+        if n_opt > 1:
+            raise AnchorMissing('%s has %d optional fields: its bit sequence is not a single bool (rule not written for that shape)' % (m.group(1), n_opt))
+        if n_bool == n_opt and not bits:
+            r.ok('%s: %d optional field(s), %d strict bool flag(s), no bit tests' % (m.group(1).rsplit('::', 1)[-1], n_opt, n_bool))
+        else:
+            r.finding('reply-flag-not-strict-bool:%s' % m.group(1).rsplit('::', 1)[-1], f.span, '%s::decode_from reads %d bool flag(s) for %d optional field(s)%s: a flag byte other than 0 or 1 is not rejected' % (
+                m.group(1), n_bool, n_opt, (' and tests bits (%s)' % ', '.join(sorted(set(bits)))) if bits else ''))
+    if n < 2:
+        raise AnchorMissing('DecodeFrom impls of the reply structs (found %d)' % n)
+    r.floor(2)
+
+
 def run(ctx):
     prog = ctx.prog
     ctx.run_rule('C18.1a', 'T3', 'every generator failure is converted into an Error::IO naming the generator and extended into the diagnostics', r_converter_names_generator, prog)
@@ -268,6 +296,7 @@ def run(ctx):
     ctx.run_rule('C18.1d', 'T5', 'every codec error can be rendered', c11.r_error_rendering, prog)
     ctx.run_rule('C18.1e', 'T1', 'reply decode errors are values', c11.r_reply_errors_are_values, prog)
     ctx.run_rule('C18.2', 'T10', 'identical request: encoded once, shared borrow, own arguments appended', r_identical_request, prog)
+    ctx.run_rule('C18.3c', 'T3', 'presence flags of reply fields are decoded as strict bools', r_reply_flags_are_strict_bools, prog)
     ctx.run_rule('C18.3', 'T2', 'only a fully decoded reply from a clean exit is trusted; generators are independent', r_only_decoded_reply_trusted, prog)
     ctx.run_rule('C18.4', 'T2', 'compare before write, on the very path that is written', r_compare_before_write, prog)
     ctx.run_rule('C18.5', 'T3', 'all generators are spawned before any is awaited', r_spawn_all_then_wait, prog)
